@@ -31,6 +31,9 @@ type node struct {
 
 	// The current state of the runnable in this node.
 	state nodeState
+	// Whether the runnable's goroutine has returned. A runnable signals DONE before it returns, so a DONE
+	// node is only safe to restart once this is set.
+	exited bool
 
 	// Backoff used to keep runnables from being restarted too fast.
 	bo *backoff.ExponentialBackOff
@@ -171,6 +174,7 @@ func (n *node) reset() {
 
 	// Clear children and state
 	n.state = nodeStateNew
+	n.exited = false
 	n.children = make(map[string]*node)
 	n.groups = nil
 
